@@ -12,7 +12,7 @@ from .world import FUNCS
 LMAX = {"newapi": 60, "extra": 60, "roundtrip": 1500, "call": 900, "inverse": 700, "backward": 700, "construct": 120, "load": 25,
         "func": 150, "restart": 120}
 
-IO_FAMILIES = ("dtf", "dti", "scat", "scat2")
+IO_FAMILIES = ("dtf", "dti", "scat", "scat2", "dt2f")
 
 
 def _pick(rng, seq):
@@ -42,7 +42,7 @@ BASE_MIX = {
             "set_default_dtype": 2.0, "func": 0.0, "roundtrip": 1.0, "newapi": 0.5},
     "C18": {"call": 0.6, "inverse": 0.0, "backward": 0.0, "construct": 3, "convert": 0.0,
             "restart": 0.3, "drop": 0.3, "forget": 0.0, "mutate_output": 0.0, "load": 9,
-            "set_default_dtype": 0.2, "func": 0.0, "roundtrip": 0.0, "extra": 0.8, "newapi": 0.5},
+            "set_default_dtype": 0.2, "func": 0.6, "roundtrip": 0.0, "extra": 0.8, "newapi": 0.5},
 }
 
 
@@ -69,11 +69,12 @@ def gen_plan(profile, seed, tier="quick"):
     # module slots: groups of a forward family and (where one exists) its inverse
     fams = list(catalog.FWD_FAMILIES)
     if profile == "C18":
-        fam_w = [("dtf", 4), ("scat", 2), ("scat2", 2), ("dwt2f", 0.5)]
+        fam_w = [("dtf", 4), ("scat", 2), ("scat2", 2), ("dwt2f", 0.5), ("dt2f", 1)]
     elif profile == "C16":
         fam_w = [("dwt1f", 2), ("dwt2f", 3), ("dtf", 3), ("scat", 1), ("scat2", 1)]
     else:
-        fam_w = [("dwt1f", 2), ("dwt2f", 3), ("dtf", 3), ("scat", 1), ("scat2", 1), ("swt", 0.3)]
+        fam_w = [("dwt1f", 2), ("dwt2f", 3), ("dtf", 3), ("scat", 1), ("scat2", 1), ("swt", 0.3),
+                 ("dt2f", 0.4)]
     slots = []
     n_groups = rng.randrange(1, 4) if not deep else rng.randrange(2, 5)
     for _ in range(n_groups):
@@ -350,7 +351,14 @@ def gen_plan(profile, seed, tier="quick"):
                                   "eval", "train"])
                 if how not in ("reload_assign", "eval", "train"):
                     slot_dtype[cs] = "float64" if how.startswith(("double", "to64")) else "float32"
-                prog.append({"op": "convert", "id": new_id(), "slot": cs, "how": how})
+                cop = {"op": "convert", "id": new_id(), "slot": cs, "how": how}
+                if rng.random() < 0.25 and cs in cur_params:
+                    # in-place load of another configuration's checkpoint (same
+                    # tensor objects, new values); filters of equal length preferred
+                    cop["how"] = "load_other"
+                    cop["params2"] = other_params(rng, slots[cs], cur_params[cs], knobs)
+                    cop["params2"]["fuzz"] = 0
+                prog.append(cop)
             elif k == "restart":
                 rs = rng.randrange(len(slots))
                 rop = {"op": "restart", "id": new_id(), "slot": rs,
@@ -432,6 +440,29 @@ def gen_plan(profile, seed, tier="quick"):
             "slots": slots, "programs": programs, "faults": faults}
 
 
+SAME_LENGTH = [["db2", "sym2"], ["db3", "sym3", "coif1"], ["db4", "sym4"], ["db7", "sym7"],
+               ["bior2.4", "rbio2.4", "db5", "sym5"], ["bior1.3", "rbio1.3", "db3"],
+               ["db12", "sym12", "coif4"], ["sym8", "db8"]]
+
+
+def other_params(rng, family, p, knobs):
+    """Another configuration of the same class whose buffers have (preferably)
+    the same shapes."""
+    import copy as _copy
+    q = _copy.deepcopy(p)
+    if "wave" in q and q["wave"].get("kind") in ("name", "pywt", "tuple2"):
+        nm = q["wave"]["name"]
+        groups = [g for g in SAME_LENGTH if nm in g]
+        if groups:
+            q["wave"] = {"kind": "name", "name": _pick(rng, [x for x in _pick(rng, groups) if x != nm] or [nm])}
+            return q
+    if family in ("dtf", "dti", "scat2", "dt2f") and "qshift" in q and q["qshift"] in ("qshift_06", "qshift_a"):
+        q["qshift"] = "qshift_a" if q["qshift"] == "qshift_06" else "qshift_06"
+        q.pop("qshift_tuple", None)
+        return q
+    return catalog.gen_params(family, rng, knobs.get("simple_waves", False))
+
+
 def gen_func(rng, oid, knobs):
     fn = _pick(rng, FUNCS)
     pool = catalog.SIZES_2D[2:9]
@@ -448,7 +479,14 @@ def gen_func(rng, oid, knobs):
           "mode": mode, "prep": rng.random() < 0.5,
           "grad_mode": _pick(rng, ["ambient", "ambient", "no_grad"]),
           "requires_grad": rng.random() < 0.3, "alias_args": rng.random() < 0.1}
-    if fn in ("afb2d", "afb2d_nonsep", "afb1d"):
+    if fn == "cplxdual2D":
+        op["args"] = [spec([N, C, _pick(rng, [8, 16, 24]), _pick(rng, [8, 16, 24])])]
+        op["J"] = rng.randrange(1, 3)
+        op["level1"] = _pick(rng, ["farras", "farras", "near_sym_a2", "qshift_a"])
+        op["qshift"] = _pick(rng, catalog.QSHIFTS)
+        op["mode"] = _pick(rng, ["periodization", "zero", "symmetric"])
+        op["prep"] = False
+    elif fn in ("afb2d", "afb2d_nonsep", "afb1d"):
         op["args"] = [spec([N, C, H, W])]
     elif fn == "afb2d_atrous":
         op["args"] = [spec([N, C, H, W])]
